@@ -17,7 +17,10 @@ Theorem C11_source_follows_protocol :
   List.length table_writes = 4 /\ 4 <= List.length table_reads_in_execute /\
   (* no method takes the mutex again while holding it (sync.RWMutex is not reentrant: a reader that re-locks behind a queued
      writer deadlocks the gateway), and no return statement leaves it held *)
-  reentrant_lock_sites = [] /\ returns_holding_lock = [].
+  reentrant_lock_sites = [] /\ returns_holding_lock = [] /\
+  (* a generation is installed in ONE critical section: the four writes share their Lock call (the model's WUnlock is only
+     enabled once all four tables carry the new generation) *)
+  match table_write_sections with [] => false | x :: t => forallb (String.eqb x) t end = true.
 Proof. vm_compute. repeat split; try reflexivity; repeat constructor. Qed.
 Print Assumptions C11_source_follows_protocol.
 
